@@ -279,6 +279,19 @@ pub fn method_call(cx: &mut Ctx, m: &syn::ExprMethodCall, expected: Option<&Ty>)
       let f = if name == "read" { "read_aligned" } else { "read_unaligned" };
       Ok(Tr::eff(format!("({} ENV {} {})", f, t, recv.code), pointee))
     }
+    ("align_to", 0) | ("align_to_mut", 0) if recv.ty.is_sliceptr() => {
+      // <[T]>::align_to::<U>(): core's split, modelled in Model/StdSlice.v
+      let t = recv.ty.slice_elem().unwrap().clone();
+      let mut u = None;
+      if let Some(tf) = &m.turbofish {
+        for a in &tf.args { if let syn::GenericArgument::Type(ty) = a { u = Some(cx.syn_ty_pub(ty)?); } }
+      }
+      let u = u.ok_or("align_to without a turbofish")?;
+      if !recv.pure { return Err("align_to of impure operand".into()); }
+      let (tt, ut) = (ty_term(&t, &cx.cty_names())?, ty_term(&u, &cx.cty_names())?);
+      let st = |e: &Ty| Ty::Ref(Box::new(Ty::SliceOf(Box::new(e.clone()))));
+      Ok(Tr::pure(format!("(slice_align_to {} {} {})", tt, ut, recv.code), Ty::Tuple(vec![st(&t), st(&u), st(&t)])))
+    }
     ("align_offset", 1) => {
       let a = cx.expr(args[0], Some(&Ty::Usize))?;
       match recv.ty.pointee() {
@@ -399,7 +412,7 @@ pub fn translate_const_asserts(im: &syn::ItemImpl) -> R<Vec<ItemOut>> {
       generics.push(crate::Generic { name: tp.ident.to_string(), is_cty: false, maybe_unsized: false });
     }
   }
-  static MS: ModuleSpec = ModuleSpec { name: "Must", file: "src/must.rs", skip: &[], imports: &[] };
+  static MS: ModuleSpec = ModuleSpec { name: "Must", file: "src/must.rs", skip: &[], imports: &[], theories: &[] };
   let sigs: HashMap<(String, String), FnSig> = HashMap::new();
   for it in &im.items {
     match it {
